@@ -719,3 +719,14 @@ func (r *renderer) join() string {
 	}
 	return b.String()
 }
+
+// Tokens returns the canonical token sequence of a program.
+func Tokens(p *Program) []string {
+	r := &renderer{evals: map[string]*Program{}}
+	r.stmts(p.Body)
+	out := make([]string, len(r.toks))
+	for i, t := range r.toks {
+		out[i] = t.S
+	}
+	return out
+}
